@@ -37,6 +37,19 @@ func (r *Rng) Range(lo, hi int) int { // inclusive
 
 func (r *Rng) Pick(xs []string) string { return xs[r.Intn(len(xs))] }
 
+// Perm returns a permutation of 0..n-1 (Fisher-Yates).
+func (r *Rng) Perm(n int) []int {
+	p := make([]int, n)
+	for i := range p {
+		p[i] = i
+	}
+	for i := n - 1; i > 0; i-- {
+		j := r.Intn(i + 1)
+		p[i], p[j] = p[j], p[i]
+	}
+	return p
+}
+
 func (r *Rng) Derive(label string) *Rng {
 	h := r.s ^ 0xabcdef
 	for i := 0; i < len(label); i++ {
